@@ -188,12 +188,14 @@ func vBuildOf(tn string, opts *RunOptions) vBuildResult {
 	wouldRun := vC02Expect(opts)
 	loadErr, buildErr, crashed := vBuild(vLabelOf(vSpec(tn)), opts)
 	vEvalIn[vBuildNo] = map[string]bool{}
-	for _, l := range vEvaluated {
+	for _, l := range vCompleted {
 		vEvalIn[vBuildNo][vNameOf(l)] = true
 	}
 	for _, r := range vRan {
-		if vLastOKNow(r) {
-			vExecBuild[r] = vBuildNo
+		if vLastOK[r] && !vFail[r] {
+			if _, pending := vPending[r]; !pending {
+				vExecBuild[r] = vBuildNo
+			}
 		}
 	}
 	res := vBuildResult{tn, opts, loadErr, buildErr, crashed}
@@ -220,7 +222,6 @@ func vBuildOf(tn string, opts *RunOptions) vBuildResult {
 	return res
 }
 
-func vLastOKNow(name string) bool { return vLastOK[name] && !vFail[name] }
 
 // ---------------------------------------------------------------- C01
 
@@ -250,9 +251,10 @@ func vCheckC01(tn string) {
 			vAssert(present, "C01: a declared output is missing after a successful build")
 		}
 		for _, d := range vDependenciesOf(s.name) {
-			// known finding D6: the dependency last executed in a build that did not evaluate this
-			// target (a partial build of the dependency), and a function's stamp does not change
-			// when it re-executes
+			// known finding D6: the dependency last executed in a process that did not evaluate this
+			// target to completion (a partial build of the dependency, or the process died first):
+			// that a dependency re-executed is remembered only in memory, and a function's persisted
+			// stamp does not change when it re-executes
 			vRegion("D6-dependency-built-alone", vExecBuild[d] > 0 && !vEvalIn[vExecBuild[d]][s.name])
 			vAssert(t > vExec[d], "C01: not re-executed after a dependency executed")
 		}
@@ -266,7 +268,7 @@ func vCheckC01(tn string) {
 // not fail, that are not forced, and whose dependencies have not executed since.
 func vC02Expect(opts *RunOptions) map[string]bool {
 	quiet := map[string]bool{}
-	if opts != nil && (opts.Always || opts.DryRun) {
+	if vAfterCrash || (opts != nil && (opts.Always || opts.DryRun)) {
 		return quiet
 	}
 	for i := range vShape {
@@ -492,3 +494,158 @@ func VHarnessHistoryTwin() {
 		vAssert(false, "twin")
 	}
 }
+
+// ---------------------------------------------------------------- C13: dry run x real build product
+
+// vDownstreamOf: function targets that depend (transitively) on name.
+func vDownstreamOf(name string) map[string]bool {
+	out := map[string]bool{}
+	changed := true
+	for changed {
+		changed = false
+		for i := range vShape {
+			s := vShape[i].name
+			if out[s] {
+				continue
+			}
+			for _, d := range vDependenciesOf(s) {
+				if d == name || out[d] {
+					out[s] = true
+					changed = true
+				}
+			}
+		}
+	}
+	return out
+}
+
+// VHarnessDry: after a symbolic history, a dry run and then a real build of the same target with
+// the same flags from the same state. The dry run executes no body and leaves files and persisted
+// state unchanged (checked in vBuildOf); it reports exactly the targets the real build attempts —
+// identical when the real build succeeds, identical apart from targets downstream of the failure
+// when a body fails.
+func VHarnessDry() {
+	vSetup()
+	names := vFunctionNames()
+	top := names[len(names)-1]
+	if vParam("first") == 1 {
+		vBuildOf(top, nil)
+	}
+	for i := 0; i < vParam("steps"); i++ {
+		if vChoose("step-kind", 2) == 0 {
+			vEdit()
+		} else {
+			vRunBuild("mid")
+		}
+	}
+	tn := names[len(names)-1-vChoose("build-target", len(names))]
+	always := vAllowAlways && vNondetBool("always")
+	vFail = map[string]bool{}
+	vBuildOf(tn, &RunOptions{DryRun: true, Always: always})
+	dry := vEvaluatingSet()
+	var failing string
+	if k := vChoose("failing-body", len(names)+1); k > 0 {
+		failing = names[k-1]
+		vFail[failing] = true
+	}
+	var opts *RunOptions
+	if always {
+		opts = &RunOptions{Always: true}
+	}
+	r := vBuildOf(tn, opts)
+	real := vEvaluatingSet()
+	if r.buildErr == nil {
+		for l := range dry {
+			vAssert(real[l], "C13: the dry run reported a target the real build did not attempt")
+		}
+		for l := range real {
+			vAssert(dry[l], "C13: the real build attempted a target the dry run did not report")
+		}
+		vReach("dry-equals-real")
+	} else {
+		down := vDownstreamOf(failing)
+		for l := range real {
+			vAssert(dry[l], "C13: the real build attempted a target the dry run did not report")
+		}
+		for l := range dry {
+			if !real[l] {
+				n := vNameOf(l)
+				gen := false // a generated source downstream of the failure
+				for d := range down {
+					for _, g := range vSpec(d).sources {
+						gen = gen || ("source://"+vDirOf(g)+":"+vBase(g)) == l
+					}
+				}
+				for _, g := range vSpec(failing).gens {
+					gen = gen || l == vSourceLabel(g)
+				}
+				vAssert(down[n] || gen, "C13: dry run and failing real build differ outside the failure's downstream")
+			}
+		}
+		vReach("dry-vs-failing-real")
+	}
+}
+
+func vDirOf(p string) string {
+	i := -1
+	for j := 0; j < len(p); j++ {
+		if p[j] == '/' {
+			i = j
+		}
+	}
+	if i < 0 {
+		return ""
+	}
+	return p[:i]
+}
+
+func vSourceLabel(p string) string { return "source://" + vDirOf(p) + ":" + vBase(p) }
+
+// ---------------------------------------------------------------- C03: crashes and failures
+
+// VHarnessCrash: first build; one symbolic edit; then a build of the top target that dies at the
+// vParam("crash")-th persistent effect (state-file mkdir / temp creation / write / rename, body
+// start / output write / end, the record refresh at load) or in which a body fails; then a fresh
+// load, which must succeed, and a build, after which C01's oracle must hold: nothing that did not
+// complete against its current inputs is remembered as up to date.
+func VHarnessCrash() {
+	vSetup()
+	names := vFunctionNames()
+	top := names[len(names)-1]
+	r := vBuildOf(top, nil)
+	vAssert(r.buildErr == nil, "first build of an intact tree fails")
+	vEdit()
+	if vParam("edits") == 2 {
+		vEdit()
+	}
+	vFail = map[string]bool{}
+	if k := vChoose("failing-body", len(names)+1); k > 0 {
+		vFail[names[k-1]] = true
+	}
+	vOps, vCrashAt = 0, vParam("crash")
+	tn := names[len(names)-1-vChoose("crashing-build-target", len(names))]
+	r = vBuildOf(tn, nil)
+	vCrashAt = -1
+	if r.crashed {
+		vReach("crash-explored")
+		// a body that had finished when the process died has executed, but nothing records it: the
+		// next build may legitimately run it again (C02 is not asserted for that build)
+		vAfterCrash = true
+	} else {
+		vReach("no-crash-at-this-index")
+	}
+	vFail = map[string]bool{}
+	r = vBuildOf(top, nil)
+	vAfterCrash = false
+	vAssert(r.loadErr == nil && r.buildErr == nil, "C03: the build after a crash or failure does not succeed")
+	// and the tree is then in the state an uninterrupted build leaves: a further build executes nothing
+	r = vBuildOf(top, nil)
+	for _, n := range names {
+		if !vSpec(n).always && !vDependsOnAlways(n) {
+			vAssert(!vRanBody(n), "C03: not converged: a build of the recovered tree still executes targets")
+		}
+	}
+	vReach("recovered")
+}
+
+var vAfterCrash bool
